@@ -115,9 +115,9 @@ func ruleORDER(p *Program, rep *Report, want map[string]bool) {
 	}
 	decl("ORDER", 3, "data -> sync -> header(inactive slot) -> sync -> Wait()==nil -> in-memory switch, as a typestate over the interprocedural event trace of Tx.Commit and Open")
 	decl("SLOT", 2, "the header is written to the inactive slot and File.metaActive is switched to the slot written (constant folding under metaActive in {0,1})")
-	decl("COMMITPOINT", 2, "no error return and no allocator rollback after the in-memory switch")
+	decl("COMMITPOINT", 1, "no error return and no allocator rollback after the in-memory switch")
 	decl("COMMIT-ERROR-PATH", 2, "every exit of Commit has waited for the writer; a failed Wait is followed by a sync carrying syncResetErr and another Wait")
-	decl("ROLLBACK-ON-EVERY-FAILURE", 4, "every failing Commit and every Rollback/Close of a write transaction runs the allocator rollback exactly once; a successful Commit never does")
+	decl("ROLLBACK-ON-EVERY-FAILURE", 3, "every failing Commit and every Rollback/Close of a write transaction runs the allocator rollback exactly once; a successful Commit never does")
 	decl("FINALIZE", 2, "a header buffer is Finalize()d (checksum) after its last field update before it is written")
 	decl("READER-IS-PASSIVE", 10, "no page write, header write, switch or rollback is reachable from any Tx/Page method of a read-only transaction")
 	decl("WHO-MAY-SWITCH", 10, "header writes and in-memory switches happen only below Tx.Commit and the open-time init transactions")
@@ -228,8 +228,11 @@ func checkOrderRun(rep *Report, run *orderRun, want map[string]bool) {
 				if op.switched {
 					bad("COMMITPOINT", "error-return-after-switch", "Commit returns an error after the in-memory switch (allocator/WAL/metaActive already point at the new state; the deferred rollback then runs on the committed state)")
 				}
-				if op.rollbacks != 1 {
-					bad("ROLLBACK-ON-EVERY-FAILURE", fmt.Sprintf("failed-commit-rollbacks=%d", op.rollbacks), fmt.Sprintf("a failing Commit runs the allocator rollback %d time(s), expected exactly once", op.rollbacks))
+				if !op.switched && op.rollbacks != 1 {
+					bad("ROLLBACK-ON-EVERY-FAILURE", fmt.Sprintf("failed-commit-rollbacks=%d", op.rollbacks), fmt.Sprintf("a Commit failing before the commit point runs the allocator rollback %d time(s), expected exactly once", op.rollbacks))
+				}
+				if op.switched && op.rollbacks != 0 {
+					bad("COMMITPOINT", "rollback-after-switch", "a Commit failing after the commit point still runs the allocator rollback")
 				}
 			}
 			if op.unwaited {
